@@ -1,9 +1,17 @@
 #!/bin/bash
-# full .vo build of the Coq development (or of the given targets)
+# Full .vo build of the Coq development, or of the given targets (with their dependencies).
+# Serialised with a lock: several checks may run concurrently.
 set -e
 cd "$(dirname "$0")"
-{ cat _CoqProject.head; find theories -name '*.v' | sort; } > _CoqProject
-coq_makefile -f _CoqProject -o Makefile.coq >/dev/null
+exec 9>.build.lock
+flock 9
+{ cat _CoqProject.head; find theories -name '*.v' | sort; } > _CoqProject.new
+if ! cmp -s _CoqProject.new _CoqProject 2>/dev/null || [ ! -f Makefile.coq ]; then
+  mv _CoqProject.new _CoqProject
+  coq_makefile -f _CoqProject -o Makefile.coq >/dev/null
+else
+  rm -f _CoqProject.new
+fi
 if [ $# -eq 0 ]; then
   timeout 3000 make -f Makefile.coq -j16 2>&1
 else
